@@ -1,6 +1,6 @@
 From Coq Require Import List NArith Bool Sorted.
 From V.gen Require Consts.
-From V.Ts Require Import Model Proofs Answers Extra Report ReportProofs ReportDead ReportDeadProofs.
+From V.Ts Require Import Model Proofs Answers Extra Exact Multi MultiProofs Report ReportProofs ReportDead ReportDeadProofs.
 Import ListNotations.
 Open Scope N_scope.
 From V.C08 Require Import Properties.
@@ -186,6 +186,19 @@ Check (C08_force_close_result :
   (r = 1 <-> live_of p (e_live e) = []) /\
   (r = 0 -> exists c, hd_error (live_of p (e_live e)) = Some c /\ In (OForce c) (snd (step s dt (EForce p fs fp)))) /\
   (r = 3 -> fp = true) /\ r <= 3).
+Check (C08_multi_stream_wellformed :
+  forall tr cap cfg n0 q k,
+  mfeasible 2 env0 (minit cap cfg n0) tr = true -> (k < length cfg)%nat ->
+  exists b, wf_run false (pevs q (comp_outs k (mrun (minit cap cfg n0) tr))) = Some b).
+Check (C08_multi_ids_fresh :
+  forall tr m,
+  m_next m + mdraws tr < ID_MOD ->
+  StronglySorted N.lt (flat_map mret (mrun m tr)) /\
+  Forall (fun i => m_next m <= i) (flat_map mret (mrun m tr))).
+Check (C08_multi_view_exact :
+  forall m dt e s c,
+  In s (m_svcs (fst (mstep m dt e))) -> find_ch c (s_chans s) <> None ->
+  strong s c = mstrong (m_svcs (fst (mstep m dt e))) c).
 Check (C08_needs_two_per_peer :
   exists tr q,
   feasible 3 env0 (init true 1000 0) tr = true /\
